@@ -1,2 +1,4 @@
 import Proofs.Slots
 import Proofs.Scan
+import Proofs.Cli
+import Proofs.CliClean
